@@ -1,51 +1,25 @@
 package main
 
 import (
+	"encoding/hex"
 	"fmt"
+	"os"
 
+	pbeditions "google.golang.org/protobuf/internal/testprotos/textpbeditions"
 	"google.golang.org/protobuf/encoding/prototext"
 	"google.golang.org/protobuf/proto"
-	"google.golang.org/protobuf/reflect/protodesc"
-	"google.golang.org/protobuf/reflect/protoreflect"
-	"google.golang.org/protobuf/reflect/protoregistry"
-	"google.golang.org/protobuf/types/descriptorpb"
 	"google.golang.org/protobuf/types/dynamicpb"
 )
 
 func main() {
-	fdp := &descriptorpb.FileDescriptorProto{}
-	err := prototext.Unmarshal([]byte(`
-name: "verif_ext.proto" package: "verif.ext" syntax: "editions" edition: EDITION_2023
-message_type { name: "M" field { name: "s" number: 1 type: TYPE_STRING label: LABEL_OPTIONAL } extension_range { start: 100 end: 200 } }
-extension { name: "xs" number: 100 type: TYPE_STRING label: LABEL_OPTIONAL extendee: ".verif.ext.M" }
-extension { name: "xr" number: 101 type: TYPE_STRING label: LABEL_REPEATED extendee: ".verif.ext.M" }
-`), fdp)
-	if err != nil {
-		panic(err)
+	for _, h := range os.Args[1:] {
+		b, _ := hex.DecodeString(h)
+		m := &pbeditions.Scalars{}
+		e1 := proto.UnmarshalOptions{NoLazyDecoding: true}.Unmarshal(b, m)
+		m2 := &pbeditions.Scalars{}
+		e2 := proto.Unmarshal(b, m2)
+		d := dynamicpb.NewMessage(m.ProtoReflect().Descriptor())
+		e3 := proto.Unmarshal(b, d)
+		fmt.Println(h, "\n eager:", e1, prototext.MarshalOptions{}.Format(m), "\n lazy:", e2, prototext.MarshalOptions{}.Format(m2), "\n dyn:", e3, prototext.MarshalOptions{}.Format(d))
 	}
-	fd, err := protodesc.NewFile(fdp, protoregistry.GlobalFiles)
-	if err != nil {
-		panic(err)
-	}
-	md := fd.Messages().Get(0)
-	xs := dynamicpb.NewExtensionType(fd.Extensions().Get(0))
-	xr := dynamicpb.NewExtensionType(fd.Extensions().Get(1))
-	types := &protoregistry.Types{}
-	types.RegisterExtension(xs)
-	types.RegisterExtension(xr)
-	bad := "bad\xff"
-	m := dynamicpb.NewMessage(md)
-	m.Set(md.Fields().Get(0), protoreflect.ValueOfString(bad))
-	_, err = proto.Marshal(m)
-	fmt.Println("regular field (VERIFY by default) Marshal:", err)
-	m = dynamicpb.NewMessage(md)
-	m.Set(xs.TypeDescriptor(), protoreflect.ValueOfString(bad))
-	b, err := proto.Marshal(m)
-	fmt.Println("extension field Marshal:", err, "bytes", b)
-	m2 := dynamicpb.NewMessage(md)
-	fmt.Println("extension field Unmarshal:", proto.UnmarshalOptions{Resolver: types}.Unmarshal(b, m2), m2.Has(xs.TypeDescriptor()))
-	m = dynamicpb.NewMessage(md)
-	m.Mutable(xr.TypeDescriptor()).List().Append(protoreflect.ValueOfString(bad))
-	_, err = proto.Marshal(m)
-	fmt.Println("repeated extension Marshal:", err)
 }
